@@ -60,18 +60,6 @@ Proof.
 Qed.
 
 Lemma stage_of_cancel : forall bo tmo age, stage_of bo tmo age = SCancel ->
-  exists t, tmo = Some t /\ oz bo <= age /\ age < t + oz bo /\ (bo = None \/ exists b, bo = Some b /\ b <= age).
-Proof.
-  intros bo tmo age; unfold stage_of.
-  destruct bo as [b |]; cbn [oz].
-  - destruct (age <? b) eqn:E; [discriminate |]. apply Z.ltb_ge in E.
-    destruct tmo as [t |]; [| discriminate]. destruct (age <? t + b) eqn:E2; [| discriminate].
-    apply Z.ltb_lt in E2. intros _; exists t; repeat split; auto; right; exists b; auto.
-  - destruct tmo as [t |]; [| discriminate]. destruct (age <? t + 0) eqn:E2; [| discriminate].
-    apply Z.ltb_lt in E2. intros _; exists t; repeat split; auto.
-Abort.
-
-Lemma stage_of_cancel : forall bo tmo age, stage_of bo tmo age = SCancel ->
   exists t, tmo = Some t /\ age < t + oz bo /\ (forall b, bo = Some b -> b <= age).
 Proof.
   intros bo tmo age; unfold stage_of.
@@ -381,25 +369,6 @@ Proof.
   exists {| t_interval := None; t_idle := Some 1000; t_sharp := false |}, (TAfterRun true).
   intros [| fuel]; cbn; [reflexivity |]. rewrite timer_tail_spin; cbn; congruence.
 Qed.
-
-Lemma timer_tail_partial : forall c ra p fuel,
-  (t_interval c <> None \/ t_idle c = None \/ ra = true) -> (4 <= fuel)%nat ->
-  exists n, timer_tail false c ra fuel p = Some n /\ (n <= 1)%nat.
-Proof.
-  intros c ra p fuel H Hf.
-  do 4 (destruct fuel as [| fuel]; [lia |]).
-  destruct p as [| | d | |]; cbn.
-  - exists 0%nat; split; [reflexivity | lia].
-  - exists 0%nat; split; [reflexivity | lia].
-  - destruct d; cbn.
-    + destruct (t_interval c) as [i |] eqn:Ei; cbn; [exists 1%nat; split; [reflexivity | lia] |].
-      destruct (t_idle c) as [d |] eqn:Ed; cbn; [| exists 0%nat; split; [reflexivity | lia]].
-      destruct H as [H | [H | ->]]; [congruence | congruence |]. cbn. exists 0%nat; split; [reflexivity | lia].
-    + exists 1%nat; split; [reflexivity | lia].
-  - destruct ra; cbn; [exists 0%nat; split; [reflexivity | lia] |].
-    destruct H as [H | [H | H]]; [| | discriminate].
-    + (* not reachable with an interval, but the statement is about every point: the loop condition is what it is *)
-      Abort.
 
 (* TIdleOnly is entered only by idle-only timers (tstep: interval = None, idle <> None); the partial statement is therefore
    about the points the code can be at for the given configuration *)
@@ -968,14 +937,6 @@ Proof.
   destruct (r_done r); [| exact H1]. destruct (finish id s1) eqn:Ef; [| exact H1].
   intros j Hj. rewrite (finish_removes _ _ _ Ef) in Hj; discriminate.
 Qed.
-
-Lemma stop_list_flagged_keeps : forall spoll now why targets orc s id,
-  flagged why s id -> flagged why (fst (fst (stop_list spoll now why targets orc s))) id.
-Proof.
-  intros spoll now why targets orc s id.
-  apply (stop_list_R (fun a b => flagged why a id -> flagged why b id)); auto.
-  - intros s0 k i i' Hl Hs. (* an update by somebody else: the general R_upd is too weak here, handled below *)
-Abort.
 
 Lemma stop_list_flags : forall spoll now why targets orc s id,
   (In id targets \/ flagged why s id) -> flagged why (fst (fst (stop_list spoll now why targets orc s))) id.
